@@ -310,10 +310,10 @@ def wl_reject(ctx, idx, rng):
         expect_refusal(ctx, o, [a, b2], feats, ValueError, f"second piece with sample_rate x{f}")
     elif kind == "rate_drift":
         # 1 + delta with delta * len >= 1: long Dask-backed pieces so that no memory is needed
-        L = int(gen.pick(rng, [3 * 10 ** 5, 2 * 10 ** 6, 10 ** 7]))
+        L = int(gen.pick(rng, [3 * 10 ** 5, 2 * 10 ** 6, 10 ** 7, 3 * 10 ** 9]))        # (the last: hours of GHz-rate data, lazy)
         delta = float(gen.pick(rng, [2.0, 5.0, 30.0])) / L
         sshape = sig.shape[1:]
-        big = da.zeros((L,) + sshape, dtype=sig.dtype, chunks=(L,) + sshape)
+        big = da.zeros((L,) + sshape, dtype=sig.dtype, chunks=(min(L, 10 ** 7),) + sshape)
         with probes.quiet():
             A = type(sig).like(sig, big)
             B = type(sig).like(sig, big, sample_rate=sig.sample_rate * (1 + delta), start_time=A.stop_time)
